@@ -534,6 +534,27 @@ def const_is(t, v):
 
 
 # ---------------------------------------------------------------------------
+def worklist_owner(crate, o, S, nf, tr):
+    """who may pop: the worklist of a traversal is popped only by its `next` (and private helpers inlined into it).  A method
+    that drains the worklist itself (distances(), predecessors(), shortest_path() re-implementing the search) is outside the
+    schema that `next` is checked against, and its results need not agree with the items `next` yields."""
+    prog = crate.prog
+    away = getattr(crate, "inlined_away", set()) or set()
+    for p in crate.fn_paths():
+        f = prog.fns[p]
+        root = prog.fns.get(f.get("root"), f)
+        if root.get("impl_self", {}).get("path") != S:
+            continue
+        if p == nf or f.get("root") == nf or p in away or root["path"] in away:
+            continue
+        an = crate.an(p)
+        for ev in an.events:
+            if ev["k"] == "call" and ev["key"] in POP_KEYS and ev["args"] and ev["args"][0][0] == "addr" \
+                    and isinstance(ev["args"][0][1], str) and ev["args"][0][1].startswith("A1."):
+                o.check(False, tr, "worklist-popped-outside-next", "%s pops the worklist itself instead of consuming the iterator: it "
+                        "re-implements the search outside the schema next() is checked against" % prog.pretty[p], ev["span"])
+
+
 BULK_EDIT_OPS = ("drain", "retain", "retain_mut", "truncate", "clear", "dedup", "sort", "sort_unstable", "sort_by", "sort_by_key",
                  "swap_remove", "remove", "split_off", "rotate_left", "rotate_right", "reverse", "swap")
 
@@ -575,6 +596,7 @@ def rule_schema_bfs(crate, prop, tier):
         o.instances += 1
         tr = Trav(crate, nf)
         an, fx = tr.an, tr.fx
+        worklist_owner(crate, o, S, nf, tr)
         marks = field_of_kind(crate, S, lambda t: is_vec_of(t, "bool"))
         M = tr.reg(marks[0]) if marks else None
         pv = tr.popped_vertex_path()
@@ -958,6 +980,7 @@ def rule_schema_dfs(crate, prop, tier):
         o.instances += 1
         tr = Trav(crate, nf)
         an, fx = tr.an, tr.fx
+        worklist_owner(crate, o, S, nf, tr)
         marks = field_of_kind(crate, S, lambda t: is_vec_of(t, "bool"))
         M = tr.reg(marks[0]) if marks else None
         pv = tr.popped_vertex_path()
@@ -1140,6 +1163,15 @@ def dfs_pipeline(crate, o, tr, nm, M, P, u):
                 rr, idx = load_parts(r[2])
                 mreg = [cr for pr, cr in cm.regmap if pr == M]
                 good = bool(mreg) and rr == mreg[0] and idx == ("mem", "A2", ("e",), None)
+                if not good and r[2][3] is None:
+                    # `!*visited.add(v)` through a captured raw pointer taken from the mark vector
+                    adds = [e for e in cl.events if e["k"] == "call" and e["key"] == "rawptr::add" and len(e["args"]) == 2]
+                    if len(adds) == 1:
+                        Pp, ix = adds[0]["args"]
+                        from_marks = any(cv == Pp and pv_[0] == "call" and pv_[1] in ("alloc::vec::Vec::as_ptr", "alloc::vec::Vec::as_mut_ptr")
+                                         and pv_[3] and pv_[3][0][0] == "at" and pv_[3][0][1] == M for pv_, cv in cm.valmap)
+                        pointee = Pp[0] == "mem" and r[2][1] == Pp[1] + "*"
+                        good = from_marks and pointee and ix in (("mem", "A2", ("e",), None), ("arg", 2), ("mem", "A2*", ("e",), None))
             o.check(good, tr, "D3-push-guard", "an out-neighbour is pushed only under a condition other than `not visited`", span)
         else:
             elem_seen = True
@@ -1211,6 +1243,7 @@ def rule_schema_dj(crate, prop, tier):
         o.instances += 1
         tr = Trav(crate, nf)
         an, fx = tr.an, tr.fx
+        worklist_owner(crate, o, S, nf, tr)
         dists = field_of_kind(crate, S, lambda t: is_vec_of(t, "usize"))
         Dm = tr.reg(dists[0]) if dists else None
         pv = tr.popped_vertex_path()
